@@ -179,6 +179,13 @@ class Ctx:
         distinct failure buckets (each shrunk by Hypothesis)."""
         import hypothesis
         from hypothesis import HealthCheck, Phase, given, settings
+        try:
+            # cap on the time Hypothesis spends minimising a failure (only
+            # affects how small the reproduction is, never the verdict)
+            import hypothesis.internal.conjecture.engine as _eng
+            _eng.MAX_SHRINKING_SECONDS = 90 if self.quick else 300
+        except Exception:        # pylint: disable=broad-except
+            pass
         phases = [Phase.generate, Phase.target]
         if shrink is None:
             shrink = True
